@@ -75,9 +75,18 @@ fn run_peer(prop: &'static str, focus: u8, idx: u64, rng: &mut Rng, ctx: &Ctx) -
     // socket reuse: up to two more connections on the same socket, each with another peer
     // configuration (MSS / window scale / timestamps announced or not, other role)
     let mut n = 0;
-    while n < 2 && out.violations.is_empty() && rng.chance(1, 3) {
+    loop {
+        // a listener that fell back to LISTEN always goes on listening for the next peer
+        let back_in_listen = sim.state() == smoltcp::socket::tcp::State::Listen;
+        if !(n < 2 && out.violations.is_empty() && (back_in_listen || rng.chance(1, 3))) {
+            break;
+        }
         n += 1;
-        let cfg2 = random_cfg(rng, focus);
+        let mut cfg2 = random_cfg(rng, focus);
+        if back_in_listen {
+            cfg2.active = false;
+            out.count("listeners_reused_after_falling_back_to_listen", 1);
+        }
         let tag2 = rng.next_u64();
         let expire = rng.bool();
         match sim.reuse(cfg2, tag2, expire) {
